@@ -249,11 +249,11 @@ func (g *c14GoConn) close() {
 // ---- backends: how connections, publishes and introspection are made -----------------------
 
 type c14MemberState struct {
-	Channels []string            `json:"channels"`
-	Globbed  map[string][]string `json:"channels_glob"`
-	NumSub   map[string]int64    `json:"numsub"`
-	NumPat   int64               `json:"numpat"`
-	Malformed string             `json:"malformed,omitempty"`
+	Channels  []string            `json:"channels"`
+	Globbed   map[string][]string `json:"channels_glob"`
+	NumSub    map[string]int64    `json:"numsub"`
+	NumPat    int64               `json:"numpat"`
+	Malformed string              `json:"malformed,omitempty"`
 }
 
 type c14Backend interface {
@@ -478,17 +478,17 @@ type c14SubRef struct {
 }
 
 type c14PubRec struct {
-	Publisher int    `json:"publisher"`
-	Seq       int    `json:"seq"`
-	Via       int    `json:"via"` // -1 = member picked by the client
-	Chan      string `json:"chan"`
-	Payload   string `json:"payload"`
-	Ret       int64  `json:"ret"`
-	Err       string `json:"err,omitempty"`
-	Step      int    `json:"step"`
-	Phase     string `json:"phase"` // sequential | concurrent-publishers | during-churn
-	Must      []c14SubRef
-	May       []c14SubRef
+	Publisher       int    `json:"publisher"`
+	Seq             int    `json:"seq"`
+	Via             int    `json:"via"` // -1 = member picked by the client
+	Chan            string `json:"chan"`
+	Payload         string `json:"payload"`
+	Ret             int64  `json:"ret"`
+	Err             string `json:"err,omitempty"`
+	Step            int    `json:"step"`
+	Phase           string `json:"phase"` // sequential | concurrent-publishers | during-churn
+	Must            []c14SubRef
+	May             []c14SubRef
 	NonMatchingPats int // pattern subscriptions in the model that do not match the channel
 }
 
